@@ -170,7 +170,6 @@
 #define ATIME_ENTRY(d) ((d)->access_time >= 0 && (d)->access_time < 0x7ffffe00)
 #define WT(ch) ((ch)->flags & CHANNEL_FLAGS_WRITETHROUGH)
 #define REQ_OK(ch, block, count) (RAW_RANGE_OK(ch, PD(ch), block, count) && ((count) < 0 || (block) + (unsigned long long)(count) <= BLK_MAX))
-static int cache_range_ok(io_channel channel, struct unix_private_data *data) { return CACHE_RANGE_OK(channel, data); }
 /* what holds of every channel between calls (representation invariant besides coherence) */
 #define CHAN_OK(ch) ((ch)->magic == EXT2_ET_MAGIC_IO_CHANNEL && PD(ch)->magic == EXT2_ET_MAGIC_UNIX_IO_CHANNEL && \
 	bufs_tied(PD(ch)) && !(PD(ch)->flags & IO_FLAG_THREADS) && PD(ch)->access_time >= 0 && cache_range_ok(ch, PD(ch)) && \
